@@ -99,7 +99,12 @@ def job_fn(job):
         out['src'] = c.src
         # TV of the captured function: identity of the variable at every position
         smap = {}
-        res = tvspec.validate(spec, _with_smap(c, spec), tally, vectorized=True)
+        plugin = None
+        if any(e.spread is not None for e in spec.edges):
+            from .. import tvdelay
+            plugin = tvdelay.ChainPlugin()
+        res = tvspec.validate(spec, _with_smap(c, spec), tally, vectorized=True, plugin=plugin,
+                              t_sym=(1 if plugin else None))
         out['violations'] += res['violations']
         out['inconclusive'] += res['inconclusive']
         out['obligations'] = res['obligations']
@@ -199,6 +204,8 @@ def run(tier='quick', seed=0, only=None, verbose=False):
     base += families.fam_hierarchy()[1:2] + families.fam_hierarchy()[5:6]
     base += families.fam_mixed_nodes(seed, n=2)
     base += families.fam_vectorization(seed, n=6, max_per_type=3)[2:5]
+    # edges with gamma kernels (a ring of one kernel): the edge paths must keep their meaning under every declaration order
+    base += [p for p in families.fam_gamma_fixed() if p[0] == 'F11x:identical-kernels' or p[0] == 'F11x:ring-decl-120']
     progs = []
     for key, spec in base:
         n = len(spec.nodes)
